@@ -178,8 +178,8 @@ def lean_audit(prop_files, extra_src_files=()):
 class Driver:
     """client of the native Lean driver; `ask(lines)` sends a batch and returns the replies"""
 
-    def __init__(self):
-        exe = os.path.join(LEAN, '.lake', 'build', 'bin', 'driver')
+    def __init__(self, name='driver'):
+        exe = os.path.join(LEAN, '.lake', 'build', 'bin', name)
         if not os.path.exists(exe):
             raise Infra('driver not built: %s' % exe)
         self.p = subprocess.Popen([exe], stdin=subprocess.PIPE, stdout=subprocess.PIPE, universal_newlines=True, bufsize=1)
@@ -278,7 +278,7 @@ class Check:
     # ---- Lean
     def lean(self, prop_files, targets=None, helper_files=(), leanchecker=False):
         """build the property modules + driver, audit axioms; returns list of broken obligation tags"""
-        targets = list(targets or []) + [pf[:-5].replace('/', '.') for pf in prop_files] + ['driver']
+        targets = list(targets or []) + [pf[:-5].replace('/', '.') for pf in prop_files] + ['drv_' + self.pid.lower()]
         ok, log, failed = lean_build(targets)
         broken = failed_theorems(failed) if not ok else []
         if not ok and not broken:
@@ -314,7 +314,7 @@ class Check:
 
     def get_driver(self):
         if self.driver is None:
-            self.driver = Driver()
+            self.driver = Driver('drv_' + self.pid.lower())
         return self.driver
 
     # ---- verdicts
